@@ -343,6 +343,43 @@ Definition c01_vassign (x y : list R) : list R :=
 Definition c01_mfill (A : list (list R)) (k : R) : list (list R) :=
   c01_for (c01_rows A) (fun i M => c01_upd M i (c01_fill (c01_row M i) k)) A.
 
+(* ------------------------------------------------------------------ assignment / conversion INTO AN EXISTING OBJECT (round 6).
+   T0 = what the target object holds BEFORE the assignment (any entries; for the dynamic classes any shape, even no rows).
+   c01_dg_to_dense / c01_assign_dense above are the same loops started from a value-initialised target. *)
+(* std::copy(begin(src), end(src), begin(dst)) *)
+Definition c01_copy_into (src dst : list R) : list R :=
+  c01_for (length src) (fun j v => c01_upd v j (c01_at src j)) dst.
+(* Impl::DenseMatrixAssigner<Dense, RHS with row iterators>::apply (densematrix.hh 81-96):
+   for (tIt = begin(dense), sIt = begin(rhs); sIt != end(rhs); ++tIt, ++sIt) std::copy of the source row *sIt over the target row *tIt *)
+Definition c01_assign_dense_into (T0 B : list (list R)) : list (list R) :=
+  c01_for (c01_rows B) (fun i T => c01_upd T i (c01_copy_into (c01_row B i) (c01_row T i))) T0.
+(* DenseMatrixAssigner<Dense, DiagonalMatrix<field,N>>::apply (diagonalmatrix.hh 1108-1121):
+   denseMatrix = field(0); for (i < N) denseMatrix[i][i] = rhs.diagonal()[i];
+   zerofill: the leading `denseMatrix = field(0);` is present (token re-read from the source, Params_gen) *)
+Definition c01_assign_diag_into (zerofill : bool) (T0 : list (list R)) (d : list R) : list (list R) :=
+  c01_for (length d) (fun i T => c01_set2 T i i (c01_at d i)) (if zerofill then c01_mfill T0 zero else T0).
+(* DynamicMatrix::operator=(T const& rhs), T not a number (dynmatrix.hh 114-121), before Base::operator=(rhs):
+   _data.resize(rhs.N()); std::fill(_data.begin(), _data.end(), row_type(rhs.M(), K(0)));   (n = rhs.N(), m = rhs.M()) *)
+Definition c01_dm_prepare (T0 : list (list R)) (n m : nat) : list (list R) :=
+  c01_for n (fun i T => c01_upd T i (c01_vzero m)) (firstn n T0 ++ repeat [] (n - length T0)).
+Definition c01_dm_assign_dense (T0 B : list (list R)) : list (list R) :=
+  c01_assign_dense_into (c01_dm_prepare T0 (c01_rows B) (c01_cols B)) B.
+Definition c01_dm_assign_diag (zerofill : bool) (T0 : list (list R)) (d : list R) : list (list R) :=
+  c01_assign_diag_into zerofill (c01_dm_prepare T0 (length d) (length d)) d.
+(* FieldMatrix::operator=(const FieldMatrix<T,ROWS,COLS>& x), other field type (fmatrix.hh 158-165):
+   for (i < ROWS) _data[i] = x[i];   with FieldVector::operator=(const FieldVector<T,SIZE>&): for (j < SIZE) _data[j] = x[j] *)
+Definition c01_fm_assign_rows (T0 X : list (list R)) : list (list R) :=
+  c01_for (c01_rows T0) (fun i T => c01_upd T i (c01_vassign (c01_row T i) (c01_row X i))) T0.
+(* defaulted copy / move assignment (FieldMatrix, FieldVector, DiagonalMatrix: std::array; DynamicMatrix, DynamicVector:
+   std::vector, which takes the size of the source): the target becomes the source, whatever it held *)
+Definition c01_copy_assign {T : Type} (T0 S : T) : T := S.
+(* FieldVector<K,1>::operator=(const DenseVector<T>&) / (const FieldVector<T,1>&): _data = other[0] *)
+Definition c01_fv1_assign (x y : list R) : list R := [c01_at y 0].
+(* ScalarVectorView / ScalarMatrixView copy assignment: *dataP_ = *(other.dataP_)  on the store of scalars (a: target cell, m: source cell);
+   assignment from a scalar: *dataP_ = k *)
+Definition c01_cell_assign (st : list R) (a m : nat) : list R := c01_upd st a (c01_at st m).
+Definition c01_cell_fill (st : list R) (a : nat) (k : R) : list R := c01_upd st a k.
+
 (* FMatrixHelp::multTransposedMatrix: ret[i][j] = 0; for k<rows ret[i][j] += A[k][i]*A[k][j]   (ret = A^T A) *)
 Definition c01_mult_transposed (r c : nat) (A T0 : list (list R)) : list (list R) :=
   c01_for c (fun i T =>
